@@ -313,6 +313,7 @@ func c03Run(u *vfUnit) {
 		}
 	}
 	c03CloseRace(u)
+	c03WriteReportedFailed(u)
 }
 
 // c03CloseRace: Close while other goroutines are in the middle of payload-carrying requests on a transport
@@ -422,6 +423,77 @@ func c03CloseRace(u *vfUnit) {
 		if pending > 0 || bad {
 			u.Violation("request-frame-torn-at-close", fmt.Sprintf("%s: the request stream ended inside a packet (%d bytes of an unfinished frame, framing broken: %v): a request reached the wire in part", label, pending, bad), nil)
 		}
+	}
+}
+
+// c03WriteReportedFailed: the transport reports one write of a one-piece request as failed, once (nothing or all of
+// it delivered; the value drawn from the pool of failure values) and keeps working. Whatever the client makes of
+// it: every request id is on the wire at most once, every frame is one whole packet, the failing call returns,
+// and every later call that succeeds got the reply to its own request.
+func c03WriteReportedFailed(u *vfUnit) {
+	pool := vfFaultPool()
+	for k := 0; k < 6; k++ {
+		pi := (u.Index*6 + k) % (2 * len(pool))
+		ferr, full := pool[pi%len(pool)], pi >= len(pool)
+		label := fmt.Sprintf("write-reported-failed(%v, delivered=%v)", ferr, full)
+		model := &vfModel{handles: map[string]uint64{}, writes: map[string][]byte{}, inflight: map[uint32]bool{}}
+		seen := map[uint32]int{}
+		peer := &vfPeer{Handler: model.handler,
+			OnRequest: func(req vfPkt, raw []byte, perr error) {
+				model.mu.Lock()
+				defer model.mu.Unlock()
+				if perr != nil {
+					model.badFrame = fmt.Sprintf("request frame does not decode: %v (% x)", perr, vfTrimB(raw, 40))
+				} else if _, err := vfParse(raw, true); err != nil {
+					model.badFrame = fmt.Sprintf("request frame is not exactly one packet: %v (% x)", err, vfTrimB(raw, 40))
+				} else if req.Type != rfInit {
+					seen[req.ID]++
+				}
+			}}
+		c, _, ctl, ce, err := vfPeerClient(peer, vfPipeOpts{})
+		if err != nil {
+			u.Inconclusive("connect: %v", err)
+			return
+		}
+		problem := ""
+		run := func() {
+			for it := 0; it < 9 && problem == ""; it++ {
+				if it == 3 {
+					ctl.TransientFailWrite(vfC2S, 1, ferr, full)
+				}
+				n := uint64(7000 + k*100 + it)
+				fi, err := c.Stat(fmt.Sprintf("/f/%d", n))
+				if err == nil && uint64(fi.Size()) != vfModelSize(n) {
+					problem = fmt.Sprintf("Stat(/f/%d) after the failure report returned size %d, the peer answered %d for that name", n, fi.Size(), vfModelSize(n))
+				}
+			}
+		}
+		if w, dump := vfAwait(vfGo(run), 60*time.Second); w != vfDone {
+			if w == vfStuck {
+				u.Violation("calls-hang-after-write-error", label+": a call does not return\n"+vfTrim(dump, 2000), nil)
+			} else {
+				u.Inconclusive("%s: wall-clock cap", label)
+			}
+			ce.Close()
+			peer.Stop()
+			return
+		}
+		vfAwait(vfGo(func() { c.Close() }), 60*time.Second)
+		peer.Stop()
+		model.mu.Lock()
+		if model.badFrame != "" && problem == "" {
+			problem = "request stream corrupt: " + model.badFrame
+		}
+		for id, n := range seen {
+			if n > 1 && problem == "" {
+				problem = fmt.Sprintf("request id %d is on the wire %d times", id, n)
+			}
+		}
+		model.mu.Unlock()
+		if problem != "" {
+			u.Violation("write-reported-failed", label+": "+problem, nil)
+		}
+		u.Count("sessions_with_a_write_reported_failed", 1)
 	}
 }
 
